@@ -125,8 +125,13 @@ Section R.
         quat_from_sv 0 (v3_normalize O T orth)
       else quat_normalize O T (quat_from_sv (k + k_cos_theta) (v3_cross O a b)).
   Definition basis3_between_vectors (a b : V3 F) : M3 F := m3_of_quat O (quat_between_vectors a b).
-  (* Basis2::between_vectors(a, b) = from_angle(Rad::acos(a.dot(b))) *)
+  (* Basis2::between_vectors(a, b) = from_angle(a.angle(b))
+     (as repaired by /repo commit "fix: Basis2::between_vectors turns the short way from a to b") *)
   Definition basis2_between_vectors (a b : V2 F) : M2 F :=
+    let th := v2_angle O T a b in
+    let s := sin T th in let c := cos T th in m2_new c s (- s) c.
+  (* the formula before the repair: from_angle(Rad::acos(a.dot(b))); kept for the refutation witness *)
+  Definition basis2_between_vectors_old (a b : V2 F) : M2 F :=
     let th := acos T (v2_dot O a b) in
     let s := sin T th in let c := cos T th in m2_new c s (- s) c.
   (* Vector3 approx: ulps_eq!(v, &Zero::zero()) *)
